@@ -18,10 +18,16 @@ EditEither(c) == Made(c) /\ Signed(c) /\ \E e \in Edits(c) : e.op = "ins" /\ e.s
 NameLen253(c) == Made(c) /\ Final(c).kids[1].len = 253
 BadPlaceholder(c) == BadPd(c)
 ContentLen65536(c) == Made(c) /\ (c.content = 65536 \/ c.app = 65536)
+\* every algorithm of the library meets the value-class edits of its signature value; ECDSA the DER re-encodings
+SvClassAll == \A k \in SvRawKinds : \E c \in CfgSpace : Made(c) /\ c.sg.kind = k /\ \A op \in SvClassOps :
+                 \E e \in Edits(c) : e.op = op /\ e.need = SvNeed(op) /\ e.need # "any" /\ e.sig = "reject"
+SvDerAll == \A k \in Kinds : \E c \in CfgSpace : Made(c) /\ c.kind = k /\ c.sg.kind = "ecdsa" /\ \A op \in SvDerOps \cup {"svtzcut"} :
+                 \E e \in Edits(c) : e.op = op /\ e.sig = "reject"
 ASSUME PrintT(<<"WITNESSES",
   [OuterNarrows3to1 |-> Wit(OuterNarrows3to1), OuterNarrows5to3 |-> Wit(OuterNarrows5to3),
    Hit253After |-> Wit(Hit253After), Hit65536Before |-> Wit(Hit65536Before), Hit65536After |-> Wit(Hit65536After),
    EmptySig |-> Wit(EmptySig), PdNotLast |-> Wit(PdNotLast), RefuseShrink |-> Wit(RefShrink), RefuseName |-> Wit(RefName),
    EitherRegion |-> Wit(EitherRegion), EditEither |-> Wit(EditEither), NameLen253 |-> Wit(NameLen253),
-   ContentLen65536 |-> Wit(ContentLen65536), BadPlaceholder |-> Wit(BadPlaceholder)]>>)
+   ContentLen65536 |-> Wit(ContentLen65536), BadPlaceholder |-> Wit(BadPlaceholder),
+   SvClassAll |-> SvClassAll, SvDerAll |-> SvDerAll]>>)
 =============================================================================
